@@ -123,6 +123,32 @@ Proof.
 Qed.
 Print Assumptions duplicate_keys_refuted.
 
+(* A clean check implies that every snapshot and index file is readable, hence that restore can
+   build its index at all (GlobalIndex::new aborts on an unreadable index file, whether or not that
+   file lists anything the snapshots need). *)
+Theorem check_clean_implies_restore_opens :
+  forall (B : Type) (hash : B -> id) (blen : B -> N) (parse : B -> option tree) (st : state B) fuel,
+    check B hash blen parse st fuel = Some [] ->
+    st_meta_ok st = true /\ st_index_ok st = true /\ restore_opens B st = true.
+Proof. exact clean_opens. Qed.
+Print Assumptions check_clean_implies_restore_opens.
+
+(* Check's own lookup index and the index restore builds are fed with the same sections of the
+   index files (`packs` only, never `packs_to_delete`; both regenerated from the source).  This is
+   what lets the soundness theorem speak about "restore's own index": if check also looked into
+   packs that prune has only marked, a blob found there would pass although restore cannot find it. *)
+Theorem check_and_restore_index_agree :
+  forall (B : Type) (st : state B), rentries B st = entries B st.
+Proof. exact rentries_eq. Qed.
+Print Assumptions check_and_restore_index_agree.
+
+(* A full read may be performed as the documented cycle IdSubSet((1,m)) .. IdSubSet((m,m)): every
+   pack is selected by one of the runs (comparison regenerated from check.rs). *)
+Theorem nm_cycle_reads_every_pack :
+  forall m pid, 0 < m -> exists n, 1 <= n <= m /\ subset_selects n m pid = true.
+Proof. exact nm_cycle_covers. Qed.
+Print Assumptions nm_cycle_reads_every_pack.
+
 (* The facts regenerated from the current source (Extracted.v) are the ones the model is written
    against: check_trees collects the packs of the root trees, of subtrees and of file chunks (three
    insert sites); read_data reads the indexed packs that are not missing and are in that set;
@@ -135,6 +161,9 @@ Theorem source_facts_as_modelled :
   x_collects_subtree_packs = true /\ x_filter_missing = true /\ x_filter_used = true /\
   x_snapshot_names_compared = true /\ x_check_pack_order = true /\
   x_blob_loop_running_offset = true /\ x_unzip_unwrap = true /\ x_offsets_checked_on_sorted = true /\
+  x_check_index_includes_marked = false /\ x_restore_index_includes_marked = false /\
+  x_unreadable_index_aborts_check = true /\ x_unreadable_index_aborts_restore = true /\
+  x_subset_reduces_n = true /\
   x_length_len = 4 /\ x_comp_overhead = 32 /\ x_entry_len = 37 /\ x_entry_len_compressed = 41.
 Proof. repeat split; reflexivity. Qed.
 Print Assumptions source_facts_as_modelled.
@@ -145,6 +174,8 @@ Theorem hypotheses_satisfiable :
   check N xhash xblen xparse st_clean 5 = Some [] /\ nodup_keys N st_clean = true /\
   correct N xhash xblen xparse st_clean (lookup N st_clean) true 5 1 = Some true /\
   check N xhash xblen xparse st_blob_damaged 5 = Some [EBlobDecrypt] /\
-  readable N xblen xparse st_blob_damaged (lookup N st_blob_damaged) 5 1 = Some false.
-Proof. vm_compute. repeat split; reflexivity. Qed.
+  readable N xblen xparse st_blob_damaged (lookup N st_blob_damaged) 5 1 = Some false /\
+  check N xhash xblen xparse st_marked_only 5 <> Some [] /\
+  check N xhash xblen xparse st_index_unreadable 5 = Some [EMeta].
+Proof. vm_compute. repeat split; try reflexivity. discriminate. Qed.
 Print Assumptions hypotheses_satisfiable.
